@@ -26,6 +26,14 @@ CHECKS = {
    "runtime monitor: reference-conversion oracle over generated compatible type pairs, refusal oracle over incompatible pairs",
    "Generates structurally compatible (S,T) Go type pairs and values, runs ConvertFrom both ways and DecodeFrom, compares with a reference conversion written in the harness; incompatible pairs (bare and nested) must be refused. Held on the pairs observed.",
    "No verdict is asked for narrowing or cross-signedness integer conversions (the statement promises neither).", "DESIGN.md section 3 C20"),
+ "C07": ("codec", "exploration",
+   "runtime monitor: per-input panic / allocation (runtime.MemStats TotalAlloc) / CPU-time (getrusage) accounting with an in-process resource guard; child-process crash attribution",
+   "Feeds random bytes, valid encodings with every length/count/signature-length field replaced by hostile values, and hostile signatures to every decoder entry point (message, dynamic value, signature reader and reflection decoder for random signatures, MetaObject, ObjectReference, ServiceInfo, CapabilityMap, generated stub argument decoders through Receive, signature and IDL parsers); each input must return a value or an error within 64 MiB + 64 B/byte of allocation and 5 s of CPU. Held on the inputs observed.",
+   "Inputs are <= 64 KiB; budgets are deliberately generous (largest legitimate single allocation is one 10 MiB cap). The directory stub's own argument decoders are reached through ReadServiceInfo and, over the wire, by C12.", "DESIGN.md section 3 C07"),
+ "C18": ("codec", "exploration",
+   "runtime monitor: GenerateIDL/ParseIDL round-trip oracle over generated meta-object packages; panic/crash monitor over arbitrary text",
+   "Generates packages of meta-objects (shared and nested structs, template-style names, tuples, all scalar kinds, m o X, uids up to 2^32-1), prints them with GenerateIDL, parses them back with ParseIDL and compares uids, names and signatures field by field; arbitrary text (random bytes, token soup, mutated valid IDL) must give a package or an error (panics recovered in-process, stack overflow seen as a child crash). Held on the packages and texts observed.",
+   "Domain: signal/property signatures are tuples and uids are >= 1 (the IDL syntax cannot express the difference otherwise); struct names are consistent across a package.", "DESIGN.md section 3 C18"),
  "C01": ("codec", "exploration",
    "runtime monitor: reference-layout oracle + exact consumption accounting over fragmenting readers",
    "Runs the real Message.Write/Message.Read on PRNG-generated headers, payloads, fragmentations and message sequences; every written frame is compared byte for byte with an independent model of the documented layout and every read is checked for equality and exact consumption; invalid headers must be refused before any payload byte is requested. Held-on-observed-executions, not a proof.",
